@@ -59,6 +59,12 @@ PeelTags(r) ==
         \cup (IF \E i \in DOMAIN r.trees : \E a \in DOMAIN r.trees[i].pos, b \in DOMAIN r.trees[i].pos :
                     a < b /\ r.trees[i].pos[a][2] = r.trees[i].pos[b][2] /\ r.trees[i].pos[a][3] = r.trees[i].pos[b][3]
               THEN {"symmetric-layout-puts-two-nodes-on-one-point"} ELSE {})
+        \* pos = <<id, cx, cy, w, h>> on the 1/16 lattice: two node boxes lie on top of each other (overlap by more than 1/8 in both axes)
+        \cup (IF \E i \in DOMAIN r.trees : \E a \in DOMAIN r.trees[i].pos, b \in DOMAIN r.trees[i].pos :
+                    LET pa == r.trees[i].pos[a]  pb == r.trees[i].pos[b]
+                        AbsD(x) == IF x < 0 THEN -x ELSE x
+                    IN  a < b /\ 2 * AbsD(pa[2] - pb[2]) < pa[4] + pb[4] - 4 /\ 2 * AbsD(pa[3] - pb[3]) < pa[5] + pb[5] - 4
+              THEN {"symmetric-layout-overlaps-two-nodes"} ELSE {})
 Tags(r) == IF r.thrown THEN {"exception"} ELSE CompTags(r) \cup PeelTags(r)
 NonTrivial(r) == ~r.thrown /\ Len(r.trees) >= 1 /\ r.core.nodes # <<>>
 vars == dvars
